@@ -104,7 +104,7 @@ theorem pairOf_some {d : Denom} {t : ETok} (h : pairOf d = some t) : d = denomOf
 
 theorem denomOfE_inj {t t' : ETok} (h : denomOfE t = denomOfE t') : t = t' := by
   cases t <;> cases t' <;> simp [denomOfE] at h ⊢
-  exact h
+  all_goals exact h
 
 /-- stores have unique keys and every ERC-20 token is backed one to one by its coin in the erc20 module account -/
 structure Backed (b : Bal) : Prop where
@@ -213,6 +213,9 @@ theorem backed_fund (b : Bal) (a : Addr) (t : Tok) (l : Ch) (amt : Nat) (h : Bac
   | U => exact backed_mint b a _ amt h hne
   | V => exact backed_mint b a _ amt h hne
   | X => exact backed_mint b a _ amt h hne
+  | W => exact backed_mint b a _ amt h hne
+  | Y => exact backed_mint b a _ amt h hne
+  | Z => exact backed_mint b a _ amt h hne
 
 theorem backed_recvApp (b b1 : Bal) (l : Ch) (t : Tok) (to : Addr) (amt : Nat) (h : Backed b) (hto : userAddr to)
     (hl : l < 1000) (hr : recvApp b l t to amt = some b1) : Backed b1 := by
@@ -225,16 +228,15 @@ theorem backed_recvApp (b b1 : Bal) (l : Ch) (t : Tok) (to : Addr) (amt : Nat) (
       · cases hr; exact backed_move b _ _ _ amt h (escrow_ne l hl) (user_ne to hto).1
     · cases hr; exact backed_mint b to _ amt h (user_ne to hto).1
 
-theorem backed_convStep (cfg : Cfg) (vmeta : List Ch) (b : Bal) (l : Ch) (t : Tok) (k : RKind) (to : Addr) (amt : Nat)
-    (h : Backed b) (hto : userAddr to) : Backed (convStep cfg vmeta b l t k to amt).1 := by
-  unfold convStep
-  simp only
+theorem backed_convStep (cfg : Cfg) (vmeta : List Ch) (b : Bal) (d : Denom) (k : RKind) (to : Addr) (amt : Nat)
+    (h : Backed b) (hto : userAddr to) : Backed (convStepD cfg vmeta b d k to amt).1 := by
+  unfold convStepD
   split
   · split
     · exact h
     · split
       · exact h
-      · cases h1 : toBaseCoin b (bankDenom t l) (resolve cfg vmeta true (bankDenom t l)) to amt with
+      · cases h1 : toBaseCoin b d (resolve cfg vmeta true d) to amt with
         | none => exact h
         | some r =>
           obtain ⟨b1, d1⟩ := r
@@ -275,12 +277,15 @@ theorem backed_recvBal (cfg : Cfg) (vmeta : List Ch) (b : Bal) (src l : Ch) (t :
           unfold recvHook
           split
           · exact hb1
-          · simp only
-            split
-            · exact backed_convStep cfg vmeta b1 l t k to amt hb1 hto
-            · split
-              · exact backed_memoStep cfg _ src l m snd (backed_convStep cfg vmeta b1 l t k to amt hb1 hto)
-              · exact backed_convStep cfg vmeta b1 l t k to amt hb1 hto
+          · split
+            · exact hb1
+            · rename_i dh _
+              simp only
+              split
+              · exact backed_convStep cfg vmeta b1 dh k to amt hb1 hto
+              · split
+                · exact backed_memoStep cfg _ src l m snd (backed_convStep cfg vmeta b1 dh k to amt hb1 hto)
+                · exact backed_convStep cfg vmeta b1 dh k to amt hb1 hto
         cases hh : recvHook cfg vmeta b1 src l t k to amt m snd with
         | mk b2 ok =>
           rw [hh] at hhook
@@ -322,6 +327,8 @@ theorem backed_sendBal (b b' : Bal) (l : Ch) (sender : Addr) (t : Tok) (amt : Na
         | base => simp only [decide_true, ↓reduceIte, denomOfE] at h1 h2 ⊢; omega
         | nat => simp [denomOfE] at h1 h2 ⊢; omega
         | v l' => simp [denomOfE] at h1 h2 ⊢; omega
+        | w l' => simp [denomOfE] at h1 h2 ⊢; omega
+        | z l' => simp [denomOfE] at h1 h2 ⊢; omega
     · split at hr
       · cases hr
       · cases hr; exact backed_move b _ _ _ amt h hne hesc
@@ -352,6 +359,77 @@ theorem backed_refundHook (cfg : Cfg) (vmeta : List Ch) (b b' : Bal) (l : Ch) (p
     split at hr
     · exact backed_convertCoin b1 b' d1 p.sender _ p.amt hb1 (user_ne _ hs).1 hr
     · cases hr; exact hb1
+
+/-- one step of a middleware callback keeps the backing invariant — whatever the step is, in whatever order -/
+theorem backed_mwStep (cfg : Cfg) (c : Ctl) (l : Ch) (seq : Seq) (p : Pkt) (i : MwIn) (r r' : MwRun) (st : String × String)
+    (h : Backed r.bal) (hp : userAddr p.sender) (hl : l < 1000) (hs : mwStep cfg c l seq p i r st = some r') :
+    Backed r'.bal := by
+  unfold mwStep at hs
+  simp only at hs
+  split at hs
+  · split at hs
+    · cases hs
+    · cases hs; exact h
+  · split at hs
+    · split at hs
+      · cases hs
+      · cases hs; exact h
+    · split at hs
+      · split at hs
+        · split at hs
+          · cases hs
+          · cases hs; exact h
+        · cases hs; exact h
+        · rename_i hap
+          cases ha : refundApp r.bal l p with
+          | none =>
+            simp only [ha] at hs
+            split at hs
+            · cases hs
+            · cases hs; exact h
+          | some b1 =>
+            simp only [ha, Option.some.injEq] at hs
+            subst hs
+            exact backed_refundApp r.bal b1 l p h hp hl ha
+      · split at hs
+        · split at hs
+          · cases hh : refundHook cfg c.vmeta r.bal l p (refundForm cfg c (l, seq) p) with
+            | none =>
+              simp only [hh] at hs
+              split at hs
+              · cases hs
+              · cases hs; exact h
+            | some b2 =>
+              simp only [hh, Option.some.injEq] at hs
+              subst hs
+              exact backed_refundHook cfg _ r.bal b2 l p _ h hp hh
+          · cases hs; exact h
+        · cases hs; exact h
+
+theorem backed_mwFold (cfg : Cfg) (c : Ctl) (l : Ch) (seq : Seq) (p : Pkt) (i : MwIn) (hp : userAddr p.sender) (hl : l < 1000) :
+    ∀ (steps : List (String × String)) (r r' : MwRun), Backed r.bal → mwFold cfg c l seq p i steps r = some r' → Backed r'.bal := by
+  intro steps
+  induction steps with
+  | nil => intro r r' h hf; simp only [mwFold, Option.some.injEq] at hf; subst hf; exact h
+  | cons st rest ih =>
+    intro r r' h hf
+    simp only [mwFold] at hf
+    cases hs : mwStep cfg c l seq p i r st with
+    | none => simp [hs] at hf
+    | some r1 =>
+      simp only [hs] at hf
+      exact ih r1 r' (backed_mwStep cfg c l seq p i r r1 st h hp hl hs) hf
+
+/-- a run of a middleware callback over ANY step list, in ANY order, keeps the backing invariant -/
+theorem backed_runMw (cfg : Cfg) (s s' : State) (l : Ch) (seq : Seq) (p : Pkt) (i : MwIn) (steps : List (String × String))
+    (h : Backed s.bal) (hp : userAddr p.sender) (hl : l < 1000) (hr : runMw cfg s l seq p i steps = some s') : Backed s'.bal := by
+  unfold runMw at hr
+  cases hf : mwFold cfg s.ctl l seq p i steps { bal := s.bal } with
+  | none => simp [hf] at hr
+  | some r =>
+    simp only [hf, Option.map_some, Option.some.injEq] at hr
+    subst hr
+    exact backed_mwFold cfg s.ctl l seq p i hp hl steps _ r h hf
 
 /-! ## operations on user accounts -/
 
@@ -454,9 +532,9 @@ theorem backed_step (cfg : Cfg) (s : State) (op : Op) (hu : userOnly op) (h : Ba
         cases mode with
         | ackOk => simp only [settleState, Option.some.injEq] at hst; subst hst; exact h
         | ackErr => exact hrefund _ hst
-        | timeout => exact hrefund _ hst
+        | timeout => exact backed_runMw cfg s s' l seq p _ _ h hp hu hst
   | ackw l seq w =>
-    -- every combination of the two decisions, agreeing or not
+    -- every step list, every order, every combination of the two decisions, agreeing or not
     simp only [stepWith, settleW]
     cases hl : lookup (l, seq) s.ctl.commits with
     | none => exact ⟨h, hc⟩
@@ -468,64 +546,8 @@ theorem backed_step (cfg : Cfg) (s : State) (op : Op) (hu : userOnly op) (h : Ba
       | some s' =>
         simp only
         unfold settleAckState at hst
-        cases ha : cfg.appRefunds w with
-        | none => rw [ha] at hst; cases hst
-        | some ar =>
-          rw [ha] at hst
-          simp only at hst
-          have hrefund : ∀ b, refundState cfg s l seq p b = some s' →
-              Backed s'.bal ∧ s'.ctl.commits = dropCommit s.ctl.commits (l, seq) := by
-            intro b hr
-            refine ⟨?_, refundState_commits cfg s s' l seq p b hr⟩
-            cases b with
-            | true =>
-              obtain ⟨b1, hap, hh | hh⟩ := refundState_cases cfg s s' l seq p hr
-              · obtain ⟨b2, hh2, hs'⟩ := hh
-                subst hs'
-                exact backed_refundHook cfg _ b1 b2 l p _ (backed_refundApp s.bal b1 l p h hp hu hap) hp hh2
-              · obtain ⟨_, _, hs'⟩ := hh
-                subst hs'
-                exact backed_refundApp s.bal b1 l p h hp hu hap
-            | false =>
-              obtain ⟨b1, hap, hs'⟩ := refundState_false cfg s s' l seq p hr
-              subst hs'
-              exact backed_refundApp s.bal b1 l p h hp hu hap
-          have key : Backed s'.bal ∧ s'.ctl.commits = dropCommit s.ctl.commits (l, seq) := by
-            cases ar with
-            | true =>
-              cases hact : cfg.ackAct w with
-              | refund => rw [hact] at hst; exact hrefund _ hst
-              | nothing => rw [hact] at hst; exact hrefund _ hst
-              | after =>
-                rw [hact] at hst
-                simp only [settleBy] at hst
-                cases hap : refundApp s.bal l p with
-                | none => rw [hap] at hst; cases hst
-                | some b1 =>
-                  rw [hap] at hst
-                  simp only [Option.some.injEq] at hst
-                  subst hst
-                  exact ⟨backed_refundApp s.bal b1 l p h hp hu hap, rfl⟩
-            | false =>
-              cases hact : cfg.ackAct w with
-              | after => rw [hact] at hst; simp only [settleBy, Option.some.injEq] at hst; subst hst; exact ⟨h, rfl⟩
-              | nothing => rw [hact] at hst; simp only [settleBy, Option.some.injEq] at hst; subst hst; exact ⟨h, rfl⟩
-              | refund =>
-                rw [hact] at hst
-                simp only [settleBy] at hst
-                cases hh : refundHook cfg s.ctl.vmeta s.bal l p (refundForm cfg s.ctl (l, seq) p) with
-                | none =>
-                  rw [hh] at hst
-                  simp only at hst
-                  split at hst
-                  · cases hst
-                  · simp only [Option.some.injEq] at hst; subst hst; exact ⟨h, rfl⟩
-                | some b2 =>
-                  rw [hh] at hst
-                  simp only [Option.some.injEq] at hst
-                  subst hst
-                  exact ⟨backed_refundHook cfg _ s.bal b2 l p _ h hp hh, rfl⟩
-          exact ⟨key.1, by intro x hx; rw [key.2] at hx; exact hc x (mem_dropCommit.1 hx).1⟩
+        have hcom := runMw_commits cfg s s' l seq p _ _ hst
+        exact ⟨backed_runMw cfg s s' l seq p _ _ h hp hu hst, by intro x hx; rw [hcom] at hx; exact hc x (mem_dropCommit.1 hx).1⟩
 
 theorem backed_run (cfg : Cfg) (ops : List Op) (s : State) (hu : ∀ op ∈ ops, userOnly op) (h : Backed s.bal)
     (hc : SendersOk s.ctl) : Backed (runWith cfg s ops).bal := by
